@@ -1,9 +1,9 @@
 SPECIFICATION Spec
 CONSTANTS
-  MeshIds = {"tri2d", "quad2d", "tet", "tetmix", "mixed", "mix3", "thin10", "bad5", "bigid"}
+  MeshIds = {"tri2d", "quad2d"}
   GeomNames = {"A", "B"}
-  Prefix <- NoPrefix
-  MaxDepth = 3
+  Prefix <- PrefixTwo
+  MaxDepth = 5
   MixedTypesSupported = TRUE
   DimensionPerGeometry = TRUE
   ValuesFollowIds = TRUE
